@@ -42,6 +42,7 @@ func runCase(c tcase, obs *vh.LineWriter, st *vh.Stats, nonCmd uint64) {
 	// rest of the case (the other replicas sharing the db) is still compared.
 	tainted := map[int]bool{}
 	taintReported := false
+	boundaryEnd := map[int]int{} // replica -> op index of a save that ended on the last slot of a batch
 	for k, o := range c.Ops {
 		if o.bad {
 			obs.Printf("%s %d ? bad\n", c.ID, k)
@@ -114,6 +115,17 @@ func runCase(c tcase, obs *vh.LineWriter, st *vh.Stats, nonCmd uint64) {
 					if u.I0/bs != (u.I0+uint64(len(u.Ents))-1)/bs {
 						st.Count("save.straddles-batch")
 						nontrivial["straddle"] = true
+					}
+					if (u.I0+uint64(len(u.Ents)))%bs == 0 {
+						st.Count("save.ends-on-last-slot-of-batch")
+						boundaryEnd[u.N] = k
+					} else if u.Ss.Index == 0 && u.I0 <= n.last() && u.I0%bs != 0 {
+						if k0, ok := boundaryEnd[u.N]; ok && k0 >= 0 {
+							st.Count("save.midbatch-overwrite-right-after-boundary-save")
+						}
+						boundaryEnd[u.N] = -1
+					} else {
+						boundaryEnd[u.N] = -1
 					}
 				}
 				if u.Ss.Index > 0 {
